@@ -1,5 +1,6 @@
 import Mkdb.Proofs.Select
 import Mkdb.Proofs.AliasCapture
+import Mkdb.Proofs.Meaning3
 import Mkdb.Props.C10
 /-!
 # C05 — single-table SELECT returns what its clauses mean
@@ -110,5 +111,170 @@ theorem C05_or_of_and (p q r : Pred) (fields : List Field) (row : Row) (a b c : 
     (hp : evalPred p fields row = .ok a) (hq : evalPred q fields row = .ok b) (hr : evalPred r fields row = .ok c) :
     evaluate (Sql.orTree (p, [q]) [(r, [])]) fields row = .ok (.bool ((a && b) || c)) := by
   simp [Sql.orTree, Sql.andTree, evaluate, hp, hq, hr, bind, Bind.bind]
+
+end Mkdb.Exec
+
+/-! ## The executor against the reference meaning
+
+`Spec.meaning fetch q` (the rows a SELECT means before ORDER BY / OFFSET / LIMIT, written as list
+comprehensions) and `Spec.satisfies q hdr want result` ("`result` is what `q` means") are the pair
+the differential-testing judge evaluates on the output of the real implementation
+(`Mkdb/Driver/Exec.lean`, `judgeLine`); the header it passes is `judgeHeader fetch q`
+(`projectColumns q.list fields []` on the fields of `Spec.fromRows`).  The theorems below say that the
+model of `EvaluateSelect` and this reference meaning agree, in both directions. -/
+namespace Mkdb.Exec
+open Mkdb.Sql Mkdb.Exec.SelectP Mkdb.Exec.MeaningP
+
+/-- **C05.result_is_the_reference_meaning**: whatever a single-table SELECT without aggregates and
+without GROUP BY answers is what the query means.  If `evaluateSelect` answers `(rows, hdr)` then the
+query has a reference meaning `want` (`Spec.meaning`: the rows of the table satisfying WHERE, in
+insertion order, projected by the select list), `hdr` is the header the judge computes, the ORDER BY
+keys resolve against it to `keys`, the key columns of `want` are comparable, the answer is exactly
+`rows = cut (sortRows keys want)` (OFFSET rows dropped, at most LIMIT kept; without ORDER BY
+`keys = []` and `sortRows [] want = want`: insertion order), and the judge's test
+`Spec.satisfies q hdr want rows` accepts it.
+Hypothesis `hwhere` excludes a WHERE clause that is a bare integer or string literal (`WHERE 5`):
+the code evaluates it to a non-boolean, selects no row and answers, while the reference meaning is
+undefined (ill-typed) - `C05_bare_literal_where_is_answered` is the witness that the hypothesis is
+needed. -/
+theorem C05_result_is_the_reference_meaning {fetch : Bytes → Option Table} {q : Select}
+    {t : TableName} {rows : List Row} {hdr : List Field}
+    (hfrom : q.from_ = some (.table t)) (hagg : hasAggr q.list = false) (hgb : q.groupBy = [])
+    (hwhere : whereIsBoolean q = true)
+    (h : evaluateSelect fetch q = .ok (rows, hdr)) :
+    ∃ want keys, Spec.meaning fetch q = some want ∧ hdr = judgeHeader fetch q ∧
+      Spec.sortKeys q hdr = some keys ∧
+      (∀ a ∈ want, ∀ b ∈ want, KeyComparable keys a b) ∧
+      rows = cut q.lim (sortRows keys want) ∧
+      Spec.satisfies q hdr want rows = true := by
+  obtain ⟨want, keys, hm, hh, hk, hcomp, rfl⟩ := (single_table_iff hfrom hagg hgb hwhere).1 h
+  exact ⟨want, keys, hm, (judgeHeader_of hh).symm, hk, hcomp, rfl,
+    satisfies_single want hfrom hagg hgb hk⟩
+
+/-- **C05.meaningful_query_is_answered** (the converse: what makes the reference meaning a
+specification and not a restatement): a single-table SELECT without aggregates and without GROUP BY
+that has a reference meaning `want`, whose ORDER BY keys resolve against the header the judge
+computes and whose key columns hold comparable values (one type, or NULL - what typed columns
+guarantee; `C05_incomparable_keys_panic` shows the hypothesis is needed) is not refused: the
+executor answers, with that header and exactly the rows `cut (sortRows keys want)`, and the judge's
+test accepts the answer.  No hypothesis on WHERE and none on the shape of the stored rows. -/
+theorem C05_meaningful_query_is_answered {fetch : Bytes → Option Table} {q : Select}
+    {t : TableName} {want : List Row} {keys : List (Nat × Bool)}
+    (hfrom : q.from_ = some (.table t)) (hagg : hasAggr q.list = false) (hgb : q.groupBy = [])
+    (hm : Spec.meaning fetch q = some want)
+    (hk : Spec.sortKeys q (judgeHeader fetch q) = some keys)
+    (hcomp : ∀ a ∈ want, ∀ b ∈ want, KeyComparable keys a b) :
+    evaluateSelect fetch q = .ok (cut q.lim (sortRows keys want), judgeHeader fetch q) ∧
+      Spec.satisfies q (judgeHeader fetch q) want (cut q.lim (sortRows keys want)) = true :=
+  ⟨(meaningful_single_table_answered hfrom hagg hgb hm hk hcomp).1,
+   satisfies_single want hfrom hagg hgb hk⟩
+
+/-- **C05.answered_iff_meaningful**: the two directions as one equivalence.  For a single-table
+SELECT without aggregates and GROUP BY whose WHERE clause is not a bare non-boolean literal, the
+executor answers `(rows, hdr)` if and only if the query has a reference meaning `want`, `hdr` is the
+judge's header, the sort keys resolve to `keys` and are comparable on `want`, and
+`rows = cut (sortRows keys want)`.  In particular a query without a meaning (unknown table, unknown
+or ambiguous column, ill-typed comparison on some row) or with an unresolvable sort key is refused
+(an error or a panic), and a refused query has no meaning or no usable sort keys. -/
+theorem C05_answered_iff_meaningful {fetch : Bytes → Option Table} {q : Select} {t : TableName}
+    (hfrom : q.from_ = some (.table t)) (hagg : hasAggr q.list = false) (hgb : q.groupBy = [])
+    (hwhere : whereIsBoolean q = true) (rows : List Row) (hdr : List Field) :
+    evaluateSelect fetch q = .ok (rows, hdr) ↔
+      ∃ want keys, Spec.meaning fetch q = some want ∧ hdr = judgeHeader fetch q ∧
+        Spec.sortKeys q hdr = some keys ∧
+        (∀ a ∈ want, ∀ b ∈ want, KeyComparable keys a b) ∧
+        rows = cut q.lim (sortRows keys want) := by
+  constructor
+  · intro h
+    obtain ⟨want, keys, hm, hh, hk, hcomp, hrows, _⟩ :=
+      C05_result_is_the_reference_meaning hfrom hagg hgb hwhere h
+    exact ⟨want, keys, hm, hh, hk, hcomp, hrows⟩
+  · rintro ⟨want, keys, hm, rfl, hk, hcomp, rfl⟩
+    exact (C05_meaningful_query_is_answered hfrom hagg hgb hm hk hcomp).1
+
+/-- the judge's header, spelled out: `projectColumns` on the fields of the FROM clause and no rows -/
+theorem C05_judgeHeader_def (fetch : Bytes → Option Table) (q : Select) :
+    judgeHeader fetch q =
+      (match projectColumns q.list
+          (match q.from_ with
+            | some tr => (match Spec.fromRows fetch tr with | some (_, f) => f | none => [])
+            | none => []) [] with
+        | .ok (_, h) => h | _ => []) := rfl
+
+/-- the hypothesis on WHERE, spelled out -/
+theorem C05_whereIsBoolean_def (q : Select) :
+    whereIsBoolean q = (match q.where_ with
+      | some (.val (.lit (.int _))) => false
+      | some (.val (.lit (.str _))) => false
+      | _ => true) := by
+  unfold whereIsBoolean
+  cases q.where_ with
+  | none => rfl
+  | some c => cases c with
+    | val v => cases v with
+      | lit l => cases l <;> rfl
+      | col c => rfl
+    | pred p => rfl
+    | and p r => rfl
+    | or l r => rfl
+
+/-- `SELECT a FROM t WHERE 5` -/
+def exQueryBareLiteral : Select :=
+  { list := [⟨.expr (.val (.col ⟨[], [97]⟩)), []⟩]
+    from_ := some (.table ⟨[116], none⟩)
+    where_ := some (.val (.lit (.int 5))) }
+
+/-- **C05.bare_literal_where_is_answered** (an ill-typed query answered; why
+`C05_result_is_the_reference_meaning` has the hypothesis `whereIsBoolean`): `SELECT a FROM t WHERE 5`
+on a table with five rows is answered with the empty result, although the condition is not a truth
+value on any row and the reference meaning is undefined (`filterRows` keeps a row when the value is
+the boolean `true` and drops it silently when it is not a boolean at all).  The parser accepts the
+statement; the judge does not flag it (a query without meaning may be answered with anything but
+rows in an unresolvable order). -/
+theorem C05_bare_literal_where_is_answered :
+    evaluateSelect exFetch exQueryBareLiteral = .ok ([], [⟨[116], [97]⟩]) ∧
+    Spec.meaning exFetch exQueryBareLiteral = none ∧ whereIsBoolean exQueryBareLiteral = false := by
+  decide
+
+/-- table `m(a)` with an integer and a string in one column (no typed table holds this) -/
+def exFetchMixed (n : Bytes) : Option Table :=
+  if n = [109] then some ⟨[[97]], [[.int 1], [.str [120]]]⟩ else none
+
+/-- `SELECT a FROM m ORDER BY a` -/
+def exQueryMixed : Select :=
+  { list := [⟨.expr (.val (.col ⟨[], [97]⟩)), []⟩]
+    from_ := some (.table ⟨[109], none⟩)
+    orderBy := [⟨⟨[], [97]⟩, false⟩] }
+
+/-- **C05.incomparable_keys_panic** (why `C05_meaningful_query_is_answered` has the hypothesis
+`KeyComparable`): on a column holding an integer and a string the query has a meaning and its sort
+key resolves, yet the executor does not answer - the comparator of `sortColumns` has no order for
+the pair (a panic in Go; C18 records it). -/
+theorem C05_incomparable_keys_panic :
+    Spec.meaning exFetchMixed exQueryMixed = some [[.int 1], [.str [120]]] ∧
+    Spec.sortKeys exQueryMixed (judgeHeader exFetchMixed exQueryMixed) = some [(0, false)] ∧
+    evaluateSelect exFetchMixed exQueryMixed = .panic "sortColumns: no comparison available" := by
+  decide
+
+-- non-vacuity: `SELECT b, a FROM t WHERE a = 3 OR b = 'ab' ORDER BY b LIMIT 2 OFFSET 1` on the
+-- five-row table `t(a, b)` of `Mkdb/Proofs/Select.lean` meets every hypothesis of the three theorems
+example : exQuery.from_ = some (.table ⟨[116], none⟩) ∧ hasAggr exQuery.list = false ∧
+    exQuery.groupBy = [] ∧ whereIsBoolean exQuery = true := by decide
+example : evaluateSelect exFetch exQuery =
+    .ok ([[.str [97, 98], .int 1], [.str [98], .int 3]], [⟨[116], [98]⟩, ⟨[116], [97]⟩]) := rfl
+example : Spec.meaning exFetch exQuery =
+    some [[.str [98], .int 3], [.str [97, 98], .int 1], [.str [97], .int 3]] := by decide
+example : judgeHeader exFetch exQuery = [⟨[116], [98]⟩, ⟨[116], [97]⟩] := by decide
+example : Spec.sortKeys exQuery (judgeHeader exFetch exQuery) = some [(0, false)] := by decide
+example : ∀ a ∈ ([[.str [98], .int 3], [.str [97, 98], .int 1], [.str [97], .int 3]] : List Row),
+    ∀ b ∈ ([[.str [98], .int 3], [.str [97, 98], .int 1], [.str [97], .int 3]] : List Row),
+      KeyComparable [(0, false)] a b := by decide
+-- and the answer is the meaning, sorted by `b` ascending, one row skipped, two kept
+example : cut exQuery.lim (sortRows [(0, false)]
+    [[.str [98], .int 3], [.str [97, 98], .int 1], [.str [97], .int 3]]) =
+    [[.str [97, 98], .int 1], [.str [98], .int 3]] := by decide
+example : Spec.satisfies exQuery (judgeHeader exFetch exQuery)
+    [[.str [98], .int 3], [.str [97, 98], .int 1], [.str [97], .int 3]]
+    [[.str [97, 98], .int 1], [.str [98], .int 3]] = true := by decide
 
 end Mkdb.Exec
